@@ -2,6 +2,10 @@ import PdshVerif.Dsh.SignalsLive
 import PdshVerif.Dsh.SignalsBatch
 import PdshVerif.Dsh.SignalsSingle
 import PdshVerif.Dsh.SignalsCancel
+import PdshVerif.Dsh.SignalsFan
+import PdshVerif.Dsh.SignalsRank
+import PdshVerif.Props.C03
+import PdshVerif.Props.C04
 
 /-!
 # C20 — interrupts: batch ^C stops everything, interactive ^C only reports
@@ -44,7 +48,18 @@ What is proved (for every `v`, `f`, `n`, every schedule and arrival time unless 
       until dsh() has returned or exit() was called some thread of pdsh (not the environment, not a spurious
       wake-up) can take a step; no thread ever holds threadcount_mutex and thd_mutex together, so there is no
       lock order to violate;
-* `exit_nonzero_on_abort`  whenever exit() was called its status is 1.
+* `rank_decreases_with_signals`, `steps_bounded_with_signals`
+      termination: every step of a thread of pdsh other than a spurious wake-up decreases `rank`; a spurious
+      wake-up adds at most 2, a delivery at most `2n + 8`, a clock tick nothing; an execution with `k` spurious
+      wake-ups and `d` delivered signals contains at most `25n + 16 + 2k + (2n + 8)d` steps of pdsh's threads.
+      With `no_deadlock_with_signals`: every run with finitely many spurious wake-ups and signals that is continued
+      as long as a thread of pdsh can move ends, and it ends with dsh() returned or exit(1) called;
+* `exit_nonzero_on_abort`  whenever exit() was called its status is 1;
+* `projects_to_fan`, `fanout_respected_without_cancel`, `once_only_without_cancel`
+      projection onto the Fan LTS of C03/C04: every run in which `_cancel_pending_threads` does not run (no
+      signal at all, or interrupts that only report, or an abort) is, with thd_mutex, `t[i].state`, the signals
+      thread and the environment forgotten, a run of `Dsh/Fan.lean` with stutter steps — so the C03/C04 theorems
+      hold of it (two of them are restated here).
 
 Not proved here: that dsh.c refines the LTS (trace correspondence of `checks/c20.py`, incl. the listing =
 RCMD/READING hosts, which the model computes at `S.lockT` and the acceptor compares); fairness of the real
@@ -66,7 +81,7 @@ theorem batch_int_enters_abort {v : Variant} {f n t0 : Nat} {s s' : St} (h : Rea
   have hd := step_s hs
   simp only [sStep] at hd
   split at hd <;> (try split at hd) <;> simp at hd
-  subst hd; simp [hb]
+  subst hd; rfl
 
 /-- C20 (-b): in batch mode the signals thread is never in the report-only branch -/
 theorem batch_never_reports {v : Variant} {f n t0 : Nat} {s : St} (h : Reach v f n true t0 s) :
@@ -286,6 +301,24 @@ theorem no_deadlock_with_signals {v : Variant} {f n t0 : Nat} {b : Bool} {s : St
     simp only [Label.proper, Bool.and_eq_true, Bool.not_eq_true'] at hp
     exact ⟨l, s', hp.1, hp.2, hs⟩
 
+/-- C20 (termination): a step of a thread of pdsh other than a spurious wake-up decreases the rank; a spurious
+    wake-up adds at most 2, the delivery of a signal at most `2n + 8`, a clock tick nothing -/
+theorem rank_decreases_with_signals {v : Variant} {f n t0 : Nat} {b : Bool} {s s' : St} {l : Label}
+    (h : Reach v f n b t0 s) (hs : step s l = some s') :
+    (l.proper = true → rank s' < rank s) ∧ (l.spurious = true → rank s' ≤ rank s + 2) ∧
+    (l.isDeliver = true → rank s' ≤ rank s + (2 * n + 8)) ∧ (l.isTick = true → rank s' = rank s) := by
+  have := rank_step (inv_reach h) hs
+  have hn : sigCredit s = 2 * n + 8 := by simp [sigCredit, (reach_params h).2.2.2.2]
+  rw [hn] at this; exact this
+
+/-- C20 (termination): an execution with `k` spurious wake-ups and `d` delivered signals contains at most
+    `25n + 16 + 2k + (2n + 8)d` steps of pdsh's own threads, whatever the schedule, the arrival times, the clock -/
+theorem steps_bounded_with_signals {v : Variant} {f n t0 : Nat} {b : Bool} {ls : List Label} {s : St}
+    (he : Exec (init v f n b t0) ls s) :
+    ls.countP Label.proper + rank s ≤
+      25 * n + 16 + 2 * ls.countP Label.spurious + (2 * n + 8) * ls.countP Label.isDeliver :=
+  steps_bounded he
+
 /-- C20: no thread of pdsh holds threadcount_mutex and thd_mutex at the same time (hence no thread waits for one
     mutex while holding the other: the lock graph has no edges, let alone a cycle) -/
 theorem no_nested_locks {v : Variant} {f n t0 : Nat} {b : Bool} {s : St} (h : Reach v f n b t0 s) :
@@ -295,6 +328,27 @@ theorem no_nested_locks {v : Variant} {f n t0 : Nat} {b : Bool} {s : St} (h : Re
 /-- after exit() nothing happens any more -/
 theorem exit_is_end {s : St} (hx : s.exited.isSome = true) (l : Label) : step s l = none := by
   simp [step, hx]
+
+/-! ## projection onto the Fan LTS (C03/C04) -/
+
+/-- a run without cancellation is a run of the fan-out LTS of C03/C04 (with stutter steps) -/
+theorem projects_to_fan {v : Variant} {f n t0 : Nat} {b : Bool} {ls : List Label} {s : St}
+    (he : Exec (init v f n b t0) ls s) (hl : ∀ l ∈ ls, l ≠ .s .lock) :
+    PdshVerif.Dsh.Fan.Exec (PdshVerif.Dsh.Fan.init v f n) (ls.filterMap projL) (proj s) :=
+  (proj_exec he hl).1
+
+/-- C04 carried over: with the `while` wait construct, whatever interrupts arrive (as long as none cancels), never
+    more than `fanout` connections are in flight -/
+theorem fanout_respected_without_cancel {f n t0 : Nat} {b : Bool} {ls : List Label} {s : St}
+    (he : Exec (init .whileWait f n b t0) ls s) (hl : ∀ l ∈ ls, l ≠ .s .lock) :
+    PdshVerif.Dsh.Fan.inflight (proj s) ≤ f :=
+  PdshVerif.Props.C04.inflight_le_fanout ⟨_, projects_to_fan he hl⟩
+
+/-- C03 carried over: each target is connected at most once -/
+theorem once_only_without_cancel {v : Variant} {f n t0 : Nat} {b : Bool} {ls : List Label} {s : St}
+    (he : Exec (init v f n b t0) ls s) (hl : ∀ l ∈ ls, l ≠ .s .lock) (i : Nat) :
+    (ls.filterMap projL).count (.w i .connectBegin) ≤ 1 :=
+  PdshVerif.Props.C03.once_only (projects_to_fan he hl) i
 
 /-! ## non-vacuity: complete runs -/
 
